@@ -8,6 +8,8 @@ pub struct LeafSpec {
     pub always: bool,
     /// streams: report an honest, exact `size_hint` (the default is `(0, None)`)
     pub hint: bool,
+    /// the child invokes the waker of its most recent poll from its destructor
+    pub dropwake: bool,
 }
 
 #[derive(Clone, Debug, PartialEq, Eq, Hash)]
@@ -109,7 +111,7 @@ impl CombSpec {
                             Step::Panic => "PANIC".into(),
                         })
                         .collect();
-                    format!("<{}{}{}>", s.join(" "), if l.always { " always" } else { "" }, if l.hint { " exact-size_hint" } else { "" })
+                    format!("<{}{}{}>", s.join(" "), if l.always { " always" } else { "" }, if l.hint { " exact-size_hint" } else { "" }) + if l.dropwake { "+wake-on-drop" } else { "" }
                 }
                 ChildSpec::Inner(i) => i.show(),
             })
